@@ -1,6 +1,157 @@
 import EupsModel.Drv.Util
+import EupsModel.Model.Cache
+/-! Driver handler of the database family (C06, C15, C07): run a history of commands on `Cache.World`.
+
+Request `{"m":"c06","nst":2,"dirs":[[root,rel,tname]..],"pinned":false,"cmds":[cmd..]}` with
+`cmd = {"op":"declare"|"undeclare"|"assignTag"|"unassignTag"|"query"|"rmcache", "user":0, "self":"Linux", ...}`;
+answer `{"steps":[{"out","crashed","flavs","view","trace","db","caches"}..]}` — the state after every command. -/
 namespace EupsModel.Drv.C06
-open Lean EupsModel EupsModel.Drv
-/-- placeholder until the C06 model exists -/
-def handle : Handler := fun _ => throw "model C06 not built"
+open Lean EupsModel EupsModel.Drv EupsModel.Db EupsModel.Cache
+
+def jnatOpt (j : Json) (k : String) : Except String (Option Nat) :=
+  match j.getObjVal? k with
+  | .ok Json.null => pure none
+  | .ok v => do pure (some (← v.getNat?))
+  | .error _ => pure none
+
+def jboolD (j : Json) (k : String) : Except String Bool :=
+  match j.getObjVal? k with
+  | .ok Json.null => pure false
+  | .ok v => v.getBool?
+  | .error _ => pure false
+
+def dirOfJson (j : Json) : Except String Dir := do
+  let a ← j.getArr?
+  if h : a.size = 2 then
+    pure ⟨← a[0].getNat?, Str.ofString (← a[1].getStr?)⟩
+  else throw "dir: expected [root, rel]"
+
+def jdirOpt (j : Json) (k : String) : Except String (Option Dir) :=
+  match j.getObjVal? k with
+  | .ok Json.null => pure none
+  | .ok v => do pure (some (← dirOfJson v))
+  | .error _ => pure none
+
+def dirEntOfJson (j : Json) : Except String DirEnt := do
+  let a ← j.getArr?
+  if h : a.size = 3 then
+    pure ⟨⟨← a[0].getNat?, Str.ofString (← a[1].getStr?)⟩, Str.ofString (← a[2].getStr?)⟩
+  else throw "dirs: expected [root, rel, tname]"
+
+def declareOfJson (self : Flav) (j : Json) : Except String Cmd := do
+  let name ← jstr j "name"
+  let ver ← jstr j "version"
+  let dir ← jdirOpt j "dir"
+  let stack ← jnatOpt j "stack"
+  let tableNone ← jboolD j "tableNone"
+  let tag ← jstrOpt j "tag"
+  let force ← jboolD j "force"
+  let noaction ← jboolD j "noaction"
+  pure (Cmd.declare ⟨self, name, ver, dir, stack, tableNone, tag, force, noaction⟩)
+
+def undeclareOfJson (self : Flav) (j : Json) : Except String Cmd := do
+  let name ← jstr j "name"
+  let ver ← jstrOpt j "version"
+  let stack ← jnatOpt j "stack"
+  let tag ← jstrOpt j "tag"
+  let vat ← jboolD j "vat"
+  let noaction ← jboolD j "noaction"
+  pure (Cmd.undeclare ⟨self, name, ver, stack, tag, vat, noaction⟩)
+
+def assignOfJson (self : Flav) (j : Json) : Except String Cmd := do
+  let tag ← jstr j "tag"
+  let name ← jstr j "name"
+  let ver ← jstr j "version"
+  let stack ← jnatOpt j "stack"
+  pure (Cmd.assignTag self tag name ver stack)
+
+def unassignOfJson (self : Flav) (j : Json) : Except String Cmd := do
+  let tag ← jstr j "tag"
+  let name ← jstr j "name"
+  let ver ← jstrOpt j "version"
+  let stack ← jnatOpt j "stack"
+  let noaction ← jboolD j "noaction"
+  pure (Cmd.unassignTag self tag name ver stack noaction)
+
+def removeOfJson (self : Flav) (j : Json) : Except String Cmd := do
+  let name ← jstr j "name"
+  let ver ← jstr j "version"
+  let noaction ← jboolD j "noaction"
+  let recursive ← jboolD j "recursive"
+  pure (Cmd.remove self name ver recursive noaction)
+
+def cmdOfJson (j : Json) : Except String WCmd := do
+  let op ← (← j.getObjVal? "op").getStr?
+  let user := (← jnatOpt j "user").getD 0
+  if op == "rmcache" then
+    let s ← jnat j "stack"
+    let f ← jstr j "flavor"
+    pure (.rmCache user s f)
+  else
+    let self ← jstr j "self"
+    let crash ← jnatOpt j "crash"
+    let c : Cmd ←
+      if op == "declare" then declareOfJson self j
+      else if op == "undeclare" then undeclareOfJson self j
+      else if op == "assignTag" then assignOfJson self j
+      else if op == "unassignTag" then unassignOfJson self j
+      else if op == "remove" then removeOfJson self j
+      else if op == "query" then pure (Cmd.query self)
+      else throw s!"unknown op {op}"
+    pure (.run user c crash)
+
+def ofDir (d : Dir) : Json := Json.arr #[Json.num d.root, ofStr d.rel]
+def ofTable : Table → Json
+  | .default => "default"
+  | .none => "none"
+def ofDecl (d : Decl) : Json :=
+  Json.arr #[Json.num d.stack, ofStr d.name, ofStr d.ver, ofStr d.flav, ofDir d.dir, ofTable d.table]
+def ofTagRec (r : TagRec) : Json :=
+  Json.arr #[Json.num r.stack, ofStr r.tag, ofStr r.name, ofStr r.flav, ofStr r.ver]
+def ofSpec (c : Spec) : Json :=
+  Json.mkObj [("decls", Json.arr (c.decls.map ofDecl).toArray), ("tags", Json.arr (c.tags.map ofTagRec).toArray)]
+def ofOutcome : Outcome → Json
+  | .ok => "ok"
+  | .refused => "Refused"
+  | .notFound => "NotFound"
+  | .failed => "Other:RuntimeError"
+  | .tableMissing => "Other:TableFileNotFound"
+def ofTagOpt : Option Tag → Json
+  | none => Json.null
+  | some t => ofStr t
+def ofEff : Eff → Json
+  | .dbDeclare d t => Json.arr #["dbDeclare", ofDecl d, ofTagOpt t]
+  | .dbUndeclare s n v f => Json.arr #["dbUndeclare", Json.num s, ofStr n, ofStr v, ofStr f]
+  | .dbAssign s t n f v => Json.arr #["dbAssign", Json.num s, ofStr t, ofStr n, ofStr f, ofStr v]
+  | .dbUnassign s t n f => Json.arr #["dbUnassign", Json.num s, ofStr t, ofStr n, ofStr f]
+  | .memAdd d t => Json.arr #["memAdd", ofDecl d, ofTagOpt t]
+  | .memRemove s n v f => Json.arr #["memRemove", Json.num s, ofStr n, ofStr v, ofStr f]
+  | .memAssign s t n f v => Json.arr #["memAssign", Json.num s, ofStr t, ofStr n, ofStr f, ofStr v]
+  | .memUnassign s t n f => Json.arr #["memUnassign", Json.num s, ofStr t, ofStr n, ofStr f]
+  | .save s f => Json.arr #["save", Json.num s, ofStr f]
+  | .rmTree d => Json.arr #["rmTree", ofDir d]
+def ofCache (c : CacheFile) : Json :=
+  Json.mkObj [("user", Json.num c.user), ("stack", Json.num c.stack), ("flavor", ofStr c.flav),
+              ("mtime", Json.num c.mtime), ("c", ofSpec c.c)]
+def ofTouch (t : Touch) : Json := Json.arr #[Json.num t.stack, ofStr t.name, Json.num t.mtime]
+
+def handle : Handler := fun j => do
+  let nst ← jnat j "nst"
+  let dirs ← (← jarr j "dirs").mapM dirEntOfJson
+  let pinned ← jboolD j "pinned"
+  let mut w := World.init nst dirs
+  let mut steps : Array Json := #[]
+  for cj in (← jarr j "cmds") do
+    let c ← cmdOfJson cj
+    let r := stepG (!pinned) w c
+    w := r.w
+    steps := steps.push <| Json.mkObj
+      [("out", ofOutcome r.out), ("crashed", Json.bool r.crashed),
+       ("flavs", Json.arr (r.flavs.map ofStrs).toArray), ("view", ofSpec r.view),
+       ("trace", Json.arr (r.trace.map ofEff).toArray), ("db", ofSpec w.db),
+       ("caches", Json.arr (w.caches.map ofCache).toArray),
+       ("touch", Json.arr (w.touch.map ofTouch).toArray),
+       ("dirs", Json.arr (w.dirs.map fun d => ofDir d.dir).toArray)]
+  pure (Json.mkObj [("steps", Json.arr steps)])
+
 end EupsModel.Drv.C06
